@@ -92,10 +92,10 @@ def run(ctx):
     jobs = [("tlc_mc", ("util", "PipeConnsMC", "PipeConnsMC.cfg"),
              dict(workers=2, timeout=1500, consts={"OPS": ctx.pick(3, 5), "MCWSIZES": small, "MCRSIZES": small})),
             ("tlc_mc", ("util", "InmemListener", "InmemListenerMC.cfg"), dict(consts={"CLOSERS": "{1}", "CAP": 1}, workers=2, timeout=1500)),
-            # deep (fills the channel), plain Write (thorough: Write and WriteString)
+            # deep (fills the channel), plain Write
             ("tlc_gen", ("util", "PipeConnsGen", "PipeConnsGen.cfg"),
              dict(workers=2, timeout=1500, consts={"OPS": ops, "WSIZES": small, "RSIZES": ctx.pick("{3, 2000}", small), "PRINTALL": "TRUE",
-                                                  "VIAS": ctx.pick('{"Write"}', two_vias)})),
+                                                  "VIAS": '{"Write"}'})),
             # every write entry point from every state within 4 (thorough: 5) calls
             ("tlc_gen", ("util", "PipeConnsGen", "PipeConnsGen.cfg"),
              dict(workers=2, timeout=1500, consts={"OPS": ctx.pick(4, 5), "WSIZES": "{0, 3, 2000}", "RSIZES": ctx.pick("{3, 2000}", "{0, 3, 2000}"),
